@@ -34,6 +34,9 @@ CHECKS = {
  "C14": dict(technique="bounded-exhaustive enumeration of well-typed programs x layouts x identifier columns (hover) and x every byte position inside call argument lists (signature help) through the real handlers; expected signatures rendered from the reference semantics",
    text="hover at every column of every identifier occurrence: range is the identifier, text contains in order kind/name/ref marker/resolved type of the bound declaration and its doc comment; signature help at every byte position between the parentheses of every call: label names the callee, one entry per declared parameter (name, ref marker, resolved type), active parameter = number of commas before the cursor",
    note="signatures and types from refsem.rs; structured containment instead of byte equality of markdown", ref="4/C14"),
+ "C15": dict(technique="bounded-exhaustive enumeration of documents through the real semanticTokens/full handler with an independent delta decoder; expected classification from lexical class and reference bindings",
+   text="classification: for every well-typed program x layout/comment placement the decoded token list equals the list derived from the generator (keywords, numbers, comments by lexical class; identifiers by binding kind; declaration modifier exactly on declaring occurrences); well-formedness: for every token soup (<=3/4 tokens) and character soup (<=3/4 chars incl. multi-byte) positions strictly increase, tokens do not overlap and each coincides with a lexical token, lengths in UTF-16 units",
+   note="independent decoder, reflex.rs and refsem.rs; on lexically invalid text the implementation's own token boundaries are accepted (tiling is C06's job)", ref="4/C15"),
  "C17": dict(technique="bounded-exhaustive enumeration of programs x layouts x comment placements through the real foldingRange handler; expected folds by construction",
    text="one fold per procedure, in source order, from the line of `proc` to the line of its last token for every generated program x layout x comment-gap variant; well-formedness (start<=end, inside document, non-overlapping) for every token soup up to 3/4 tokens",
    note="line numbers from the independent text model lsptext.rs", ref="4/C17"),
